@@ -234,7 +234,7 @@ PROPS["C09"] = dict(
 )
 
 _c12 = [K("c12::c12_" + n, encodes="write_into == to_raw().to_bytes(); padded length; zero padding; nothing beyond touched; short destination -> TooSmall and untouched",
-          bounds="destination sizes 0..=64 (24 for raw), all values within the C08 bounds", mem=14, timeout=1800)
+          bounds="destination sizes 0..=64 (24 for raw), all values within the C08 bounds", mem=26 if n in ("alternate_server", "xor_mapped_address", "error_code") else 12, timeout=1800)
         for n in ["username", "realm", "nonce", "software", "alternate_domain", "error_code", "unknown_attributes", "message_integrity",
                   "message_integrity_sha256", "userhash", "fingerprint", "priority", "use_candidate", "ice_controlled", "ice_controlling",
                   "password_algorithm", "password_algorithms", "xor_mapped_address", "alternate_server", "raw_attribute"]]
@@ -307,6 +307,7 @@ PROPS["C11"] = dict(
     jobs=[K("blayout::c11_rules_%s" % o, encodes="each operation refused exactly per the ordering rules; a refused operation leaves byte_len()/has_attribute(q) unchanged; into_owned/clone change nothing; final queries, byte_len and serialised length agree with the accepted operations",
             bounds="ops %s" % o, mem=8, timeout=1500)
           for o in ["11", "51", "55", "54", "21", "17", "18"]]
+         + [K("blayout::c11_dup_of_earlier_attribute", encodes="X, Y, X: the third add is refused although X is not the most recently added attribute (refusal and final queries only)", bounds="all message types/ids/values", mem=6, timeout=900)]
          + [K("blayout::c11_rules_%s" % o, T, encodes="same, longer sequences and sequences with SHA-1 integrity / FINGERPRINT operations", bounds="ops %s" % o, mem=45, timeout=7200)
             for o in ["1215", "5512", "2812", "1171", "1752", "2127", "1141", "4546", "5456", "6456", "1216", "2861", "4675", "5666"]]
          + [K("builder::c11_ops_%d" % o, T, encodes="as above + after every refusal build() is byte-identical; final message parses, validates, queries agree with the parsed message",
@@ -329,6 +330,7 @@ PROPS["C16"] = dict(
         K("c16::c16_two_attrs_rec", T, encodes="check_attribute_types on [header, A, B] (symbolic method, id, types A/B, supported <= 2, required <= 1): None/420/400 verdict, 420 before 400, error class/method/id, "
           "the list handed to unknown_attributes == the unsupported comprehension-required types in MESSAGE order (response constructors are recorder stubs)", bounds="all A, B (non-seal), all lists", mem=30, timeout=5400,
           unwindset=_POLICE_UW),
+        K("c16::c16_fixed_request_rec", T, encodes="the literal request [hdr, PRIORITY, USERNAME, SOFTWARE] policed with every supported list (<= 2) and required list (<= 1): verdict, 420 first, list in message order", bounds="all lists", mem=30, timeout=5400),
         K("c16::c16_verdict_rec_28", T, encodes="same verdict/list assertions on every accepted request of <= 28 bytes against the reference decoder's exposed attributes", bounds="len <= 28, lists <= 2", mem=20, timeout=5400,
           unwindset=_POLICE_UW),
         K("c16::c16_comprehension_required_all_types", encodes="comprehension_required(t) == (t < 0x8000)", bounds="all 65536 types"),
